@@ -64,7 +64,7 @@ func (sc *c19sc) describe() map[string]interface{} {
 	return map[string]interface{}{
 		"origin": sc.origin, "kind": kindName[d.kind], "first_sequence": d.first, "newest_sequence": d.max,
 		"missing_files": shown, "missing_count": len(ml), "seconds_between_states": d.step, "jitter": d.jitter,
-		"pauses": fmt.Sprint(d.pauses), "state_file_style": d.style, "base_url": d.base, "call_form": form,
+		"pauses": fmt.Sprint(d.pauses), "state_file_style": d.style, "txn_ids_per_list_in_state_files": d.big, "base_url": d.base, "call_form": form,
 		"query_time": sc.q.Format(time.RFC3339Nano), "query": sc.qdesc, "request_budget": budgetFor(d),
 	}
 }
@@ -72,7 +72,7 @@ func (sc *c19sc) describe() map[string]interface{} {
 func (sc *c19sc) hash() uint64 {
 	d := sc.d
 	h := kit.Mix(uint64(d.kind)<<60 ^ d.first ^ d.max<<20 ^ uint64(d.step)<<44)
-	h = kit.Mix(h ^ uint64(d.t0) ^ d.jitSeed ^ uint64(d.style)<<8 ^ uint64(sc.form)<<16 ^ uint64(len(d.base))<<24)
+	h = kit.Mix(h ^ uint64(d.t0) ^ d.jitSeed ^ uint64(d.style)<<8 ^ uint64(d.big)<<32 ^ uint64(sc.form)<<16 ^ uint64(len(d.base))<<24)
 	if d.jitter {
 		h = kit.Mix(h + 1)
 	}
@@ -359,6 +359,9 @@ func (e *enumSpace) scenario(c int) *c19sc {
 		d.style = int(h % 4)
 	} else {
 		d.style = int(h % 5)
+		if h>>24%8 == 0 { // one case in eight is served from large state files (about 0.7 KB to 22 KB)
+			d.big = []int{30, 60, 150, 1000}[h>>28%4]
+		}
 	}
 	d.max = d.first + uint64(n) - 1
 	for i := 0; i < n-1; i++ {
@@ -441,6 +444,9 @@ func drawScenario(t *kit.Tape) *c19sc {
 		d.style = t.Draw(4)
 	} else {
 		d.style = t.Draw(5)
+		if t.Chance(1, 6) { // large state files
+			d.big = t.Pick(30, 60, 150, 400, 1000)
+		}
 	}
 	d.setBase(t.Draw(3))
 	sc := &c19sc{d: d, form: t.Draw(2), origin: "sampled"}
@@ -629,6 +635,9 @@ func runC19(t *testing.T, r *kit.Run) {
 		}
 		if tr.offByOne > 0 {
 			o.Probe("changeset-state-file-with-off-by-one-number")
+		}
+		if d.big > 0 && d.kind != kChangeset {
+			o.Probe("large-state-files")
 		}
 		if d.max-d.first+1 >= 1000000 {
 			o.Probe("range-of-a-million-or-more")
